@@ -94,18 +94,30 @@ def _canary_variant(U):
             while i < len(toks) - 2:
                 if toks[i].text == "proof" and toks[i + 1].text == "fn":
                     name = toks[i + 2].text
+                    # body = the LAST top-level brace group before the next item starts (spec clauses may contain braces)
+                    ITEM_KW = ("pub", "proof", "spec", "open", "closed", "fn", "impl", "broadcast", "uninterp", "struct",
+                               "enum", "use", "const", "trait", "type", "#")
                     j = i + 3
                     ok = False
-                    while j < len(toks):
-                        if toks[j].kind == "punct" and toks[j].text == "{":
-                            ok = True
-                            break
-                        if toks[j].kind == "punct" and toks[j].text in ("(", "["):
-                            j = match_close(toks, j) + 1
+                    last_open = None
+                    q = j
+                    while q < len(toks):
+                        if toks[q].kind == "punct" and toks[q].text == "{":
+                            last_open = q
+                            q = match_close(toks, q) + 1
+                            if q >= len(toks) or toks[q].text in ITEM_KW:
+                                break
                             continue
-                        if toks[j].text == ";":
+                        if toks[q].kind == "punct" and toks[q].text in ("(", "["):
+                            q = match_close(toks, q) + 1
+                            continue
+                        if toks[q].text == ";" :
+                            last_open = None
                             break
-                        j += 1
+                        q += 1
+                    if last_open is not None:
+                        ok = True
+                        j = last_open
                     if ok:
                         e = match_close(toks, j)
                         # include leading `pub` if present
